@@ -20,7 +20,7 @@ import common
 from props import pw_util as U
 
 PROPERTY = "C13"
-LEAN_MODULE = "CrCube.Props.C13"
+LEAN_MODULE = ["CrCube.Props.C13", "CrCube.Props.C13_Disjoint"]
 THEOREMS = [
     "CrCube.C13.t_def",
     "CrCube.C13.varSum_ok",
@@ -48,6 +48,9 @@ THEOREMS = [
     "CrCube.C13.overlap_def",
     "CrCube.C13.overlap_antisymmetric",
     "CrCube.C13.overlap_self_zero",
+    "CrCube.C13.overlap_disjoint_den_nan",
+    "CrCube.C13.overlap_disjoint_t",
+    "CrCube.C13.overlap_disjoint_never_significant",
 ]
 RULE = ("2-D cubes and (one case in four) 3-D cubes with a cat / MR table dimension, every partition compared with the 2-D "
         "analysis of the survey restricted to the table element (numeric payloads: sub-tensor at the raw table position / "
@@ -55,8 +58,12 @@ RULE = ("2-D cubes and (one case in four) 3-D cubes with a cat / MR table dimens
         "with a weighted_squared_count measure), additive and difference subtotals on both dimensions as selected or "
         "compared column / as row, explicit order + hide + prune on both dimensions, every alpha shape (absent, float, "
         "1-3 element lists sorted or not, malformed) and only_larger flag; mean cubes (mean, stddev, "
-        "valid_count_unweighted) for Welch, incl. exactly two columns, with the proportions test of the same cube read from the "
-        "same slice object before and after the means test; MR columns with overlap / valid_overlap measures (both, only one, none: only both together take the overlap path); a case is non-trivial "
+        "valid_count_unweighted) for Welch, incl. exactly two columns, and (round 6) mean cubes with every set of count measures "
+        "(valid_count_unweighted / valid_count_weighted / weighted count present or absent, result.counts, all four arrays different: "
+        "Welch's n is the unweighted valid count if given, else result.counts - never a weighted array), with the proportions test of the same cube read from the "
+        "same slice object before and after the means test; MR columns with overlap / valid_overlap measures (both, only one, none: only both together take the overlap path), a third of them split-sample designs (groups of "
+        "items shown to disjoint groups of respondents, nested items, never-shown items: N_ab = 0 or N_a = 0 with other pairs finite; the "
+        "undefined pairs must read NaN and stay out of every index set) and a respondent-level oracle of the overlap-corrected statistic; a case is non-trivial "
         "when some displayed cell has a finite non-zero t; distinct = (kind, design, data) key")
 ASSUMPTIONS = [
     "counts / column bases handed to the model are the survey's tabulation (C01/C02; cross-checked here against the "
@@ -153,6 +160,7 @@ def gen_counts_case(rng, table=False):
             "wmode": wmode, "transforms": tr, "table": table}
 
 
+W_MULT = [F(1, 4), F(1, 2), F(3, 4), F(5, 4), F(3, 2), F(2), F(3)]      # cell-wise (weighted n) / (unweighted n), never 1
 MEAN_VALS = [F(-3), F(-1), F(0), F(1, 2), F(1), F(3, 2), F(2), F(5, 2), F(4), F(7)]
 SD_VALS = [F(0), F(1, 4), F(1, 2), F(1), F(1), F(3, 2), F(2), F(3)]
 
@@ -182,7 +190,64 @@ def gen_means_case(rng, table=False):
     pw = gen_pw_transform(rng)
     if pw:
         tr["pairwise_indices"] = pw
-    return {"type": "means", "vars": [v.to_json() for v in vars_], "data": data, "transforms": tr, "table": table}
+    case = {"type": "means", "vars": [v.to_json() for v in vars_], "data": data, "transforms": tr, "table": table}
+    if rng.random() < 0.5:
+        # round 6: which count arrays the response carries.  Four DIFFERENT arrays per cell: n (valid_count_unweighted),
+        # rc >= n (result.counts: every respondent of the cell), wn (valid_count_weighted), wc (weighted `count` measure).
+        # Welch's n is an unweighted respondent count: n if the measure is there, else rc - whatever weighted arrays exist.
+        case["msel"] = {"vcu": rng.random() < 0.45, "vcw": rng.random() < 0.65, "count": rng.random() < 0.7}
+        data["rc"] = [n + rng.choice([0, 1, 2, 3, 7]) for n in data["n"]]
+        data["wn"] = [gen.frac_str(n * rng.choice(W_MULT)) for n in data["n"]]
+        data["wc"] = [gen.frac_str(n * rng.choice(W_MULT)) for n in data["rc"]]
+    return case
+
+
+MR_MISSING = 2      # answer code of a missing MR item (0 selected, 1 other)
+
+
+def split_sample(rng, vars_, sv):
+    """round 6: questionnaire designs in which not every item of the COLUMNS multiple-response variable is shown to
+    everybody, so that some pairs of items have no respondent in common (N_ab = 0) although each has valid answers:
+      forms   every respondent gets one of k questionnaire forms, every item belongs to one form or to all of them
+      nested  item b is only asked of those who were NOT asked item a
+      never   one item was shown to nobody (N_a = 0)
+    Items not shown read missing.  The overlap-corrected statistic of such a pair is undefined (0/0)."""
+    cv = len(vars_) - 1
+    nsub = len(vars_[cv].items)
+    mode = rng.choice(["forms"] * 4 + ["nested"] * 2 + ["never"])
+    out = []
+    if mode == "forms":
+        k = rng.randint(2, 3)
+        form_of = [rng.choice([None] + list(range(k)) * 2) for _ in range(nsub)]
+        if nsub >= 2 and len({f for f in form_of if f is not None}) < 2:
+            a, b = rng.sample(range(nsub), 2)
+            form_of[a], form_of[b] = 0, 1
+        for w, ans in sv:
+            f = rng.randrange(k)
+            ans = [list(x) for x in ans]
+            for it in range(nsub):
+                if form_of[it] is not None and form_of[it] != f:
+                    ans[cv][it] = MR_MISSING
+                elif form_of[it] == f and ans[cv][it] == MR_MISSING and rng.random() < 0.8:
+                    ans[cv][it] = rng.choice([0, 1])
+            out.append((w, ans))
+        return out, {"mode": mode, "forms": form_of}
+    if mode == "nested" and nsub >= 2:
+        a, b = rng.sample(range(nsub), 2)
+        for w, ans in sv:
+            ans = [list(x) for x in ans]
+            if ans[cv][a] != MR_MISSING:
+                ans[cv][b] = MR_MISSING
+            elif rng.random() < 0.8:
+                ans[cv][b] = rng.choice([0, 1])
+            out.append((w, ans))
+        return out, {"mode": mode, "pair": [a, b]}
+    a = rng.randrange(nsub)
+    for w, ans in sv:
+        ans = [list(x) for x in ans]
+        ans[cv][a] = MR_MISSING
+        out.append((w, ans))
+    return out, {"mode": "never", "item": a}
 
 
 def gen_overlap_case(rng, table=False):
@@ -194,6 +259,9 @@ def gen_overlap_case(rng, table=False):
     weighted = rng.random() < 0.5
     sv = gen.gen_survey(rng, vars_, weighted=weighted, n_resp=rng.choice([0, 5, 15, 30, 45, 60, 80]) * (2 if table else 1),
                         skew=False)
+    split = None
+    if rng.random() < 0.35:
+        sv, split = split_sample(rng, vars_, sv)
     tr = {}
     if rng.random() < 0.7:
         tr["rows_dimension"] = U.gen_dim_transforms(rng, axes[0], p_prune=0.0)
@@ -202,7 +270,7 @@ def gen_overlap_case(rng, table=False):
     if pw:
         tr["pairwise_indices"] = pw
     return {"type": "overlap", "vars": [v.to_json() for v in vars_], "survey": gen.survey_to_json(sv),
-            "wmode": "weighted" if weighted else "unit", "transforms": tr, "table": table,
+            "wmode": "weighted" if weighted else "unit", "transforms": tr, "table": table, "split": split,
             # which of the two overlap measures the response carries: only "both" switches to the overlap-corrected test
             "ovm": rng.choice(["both"] * 5 + ["overlap"] * 2 + ["valid"] * 2 + ["none"])}
 
@@ -280,6 +348,31 @@ def _kind(case):
     if case["type"] == "overlap" and case.get("ovm", "both") != "both":
         return "counts"
     return case["type"]
+
+
+MSEL_DEFAULT = {"vcu": True, "vcw": False, "count": False}
+
+
+def _means_arrays(case):
+    """(U, W): the flat raw arrays a mean cube's tests work on.
+    U = unweighted cell counts (Welch's n, bases of the proportions test): valid_count_unweighted if the response has it,
+        else result.counts;
+    W = cell counts of the proportions test's proportions (`Cube.counts`): valid_count_weighted, else
+        valid_count_unweighted, else the weighted `count` measure (if it differs from result.counts), else result.counts."""
+    d = case["data"]
+    ms = case.get("msel") or MSEL_DEFAULT
+    n = [F(x) for x in d["n"]]
+    rc = [F(x) for x in d.get("rc", d["n"])]
+    u = n if ms["vcu"] else rc
+    if ms["vcw"]:
+        w = [F(x) for x in d["wn"]]
+    elif ms["vcu"]:
+        w = n
+    elif ms["count"]:
+        w = [F(x) for x in d["wc"]]
+    else:
+        w = rc
+    return u, w
 
 
 def _colbases_from_raw(vars_, flat, axes):
@@ -368,13 +461,15 @@ def _plan2d(case):
         d = case["data"]
         mm = _extract(vars_, d["mean"], axes)
         sd = _extract(vars_, d["stddev"], axes)
-        nn = _extract(vars_, d["n"], axes)
+        uflat, wflat = _means_arrays(case)
+        nn = U.fmat(_extract(vars_, uflat, axes))
         plan.update(mm=mm, sd=sd, nn=nn)
         add("means", {"op": "pw_means", "nr": nr, "nc": nc, "means": mm, "stddev": sd, "counts": nn,
                       "n_row_subs": len(rsubs), "n_col_subs": len(csubs), "row_order": ro, "col_order": co})
-        # the proportions test of the same cube works on the valid counts (weighted = unweighted)
-        cb = _colbases_from_raw(vars_, d["n"], axes)
-        add("pw", {"op": "pw", "nr": nr, "nc": nc, "counts": nn, "wbases": cb, "ubases": cb,
+        # the proportions test of the same cube works on the (valid) counts: proportions from W, bases n from U
+        cb = U.fmat(_colbases_from_raw(vars_, uflat, axes))
+        wcb = U.fmat(_colbases_from_raw(vars_, wflat, axes))
+        add("pw", {"op": "pw", "nr": nr, "nc": nc, "counts": U.fmat(_extract(vars_, wflat, axes)), "wbases": wcb, "ubases": cb,
                    "ucols_base": [cb[0][j] if nr else 0 for j in range(nc)], "sqbases": None,
                    "row_subs": _subs_json(rsubs), "col_subs": _subs_json(csubs), "row_order": ro, "col_order": co})
     else:
@@ -460,6 +555,59 @@ def overlap_bases(axes, ov, vov):
         valid.append([[sum((vov[i][p][a][q][b] for p in (0, 1) for q in (0, 1)), F(0)) for b in range(nsub)]
                       for a in range(nsub)])
     return sel, valid
+
+
+def overlap_oracle(axes, survey, weighted):
+    """respondent level, straight from the survey (no tensors): for every base row i
+         S[i][a][b] = weight of the respondents of the row's base who selected items a and b,
+         N[i][a][b] = ... who validly answered items a and b            (a = b: the item's own counts)
+         cnt[i][a] / base[i][a] = the column proportion of cell (i, a)"""
+    r, c = axes
+    nr, ns = r.n, c.n
+    S = [[[F(0)] * ns for _ in range(ns)] for _ in range(nr)]
+    N = [[[F(0)] * ns for _ in range(ns)] for _ in range(nr)]
+    cnt = [[F(0)] * ns for _ in range(nr)]
+    base = [[F(0)] * ns for _ in range(nr)]
+    for w, ans in survey:
+        ww = w if weighted else F(1)
+        ca = ans[c.vidx]
+        for i in range(nr):
+            if not U._valid(r, ans, i):
+                continue
+            rsel = U._sel(r, ans, i)
+            for a in range(ns):
+                if ca[a] == 0:
+                    base[i][a] += ww
+                    if rsel:
+                        cnt[i][a] += ww
+                for b in range(ns):
+                    if ca[a] == 0 and ca[b] == 0:
+                        S[i][a][b] += ww
+                    if ca[a] in (0, 1) and ca[b] in (0, 1):
+                        N[i][a][b] += ww
+    return S, N, cnt, base
+
+
+def overlap_formula(S, N, cnt, base, i, a, b):
+    """(t, p, exact) of the overlap-corrected test, evaluated in IEEE arithmetic (0/0 = NaN: an undefined proportion makes
+    the statistic undefined); exact = False when the variance term cancels to exactly 0 over Q (floats then keep a rounding
+    residue of either sign: not compared)"""
+    import numpy as np
+    from scipy.stats import t as tdist
+    Sa, Sb, Sab, Na, Nb, Nab = S[i][a][a], S[i][b][b], S[i][a][b], N[i][a][a], N[i][b][b], N[i][a][b]
+    exact = True
+    if Na != 0 and Nb != 0 and Nab != 0:
+        pa, pb, pab = Sa / Na, Sb / Nb, Sab / Nab
+        if pa * (1 - pa) + pb * (1 - pb) + 2 * pa * pb - 2 * pab == 0:
+            exact = False
+    f = lambda x: np.float64(float(x))  # noqa
+    with np.errstate(all="ignore"):
+        pa, pb, pab = f(Sa) / f(Na), f(Sb) / f(Nb), f(Sab) / f(Nab)
+        df = f(Na) + f(Nb) - f(Nab)
+        cpa, cpb = f(cnt[i][a]) / f(base[i][a]), f(cnt[i][b]) / f(base[i][b])
+        t_ = (cpb - cpa) / np.sqrt(1 / df * (pa * (1 - pa) + pb * (1 - pb) + 2 * pa * pb - 2 * pab))
+        p_ = 2 * (1 - tdist.cdf(abs(t_), df=df - 2))
+    return float(t_), float(p_), exact
 
 
 def _table_parts(T):
@@ -599,10 +747,16 @@ def _mk_response(case, vars_, survey):
         res["measures"] = {
             "mean": {"data": conv(d["mean"]), "metadata": meta, "n_missing": 0},
             "stddev": {"data": conv(d["stddev"]), "metadata": meta, "n_missing": 0},
-            "valid_count_unweighted": {"data": list(d["n"]), "metadata": meta, "n_missing": 0},
         }
-        res["counts"] = list(d["n"])
-        res["n"] = sum(d["n"])
+        ms = case.get("msel") or MSEL_DEFAULT
+        if ms["count"]:
+            res["measures"]["count"] = {"data": [gen.num(F(x)) for x in d["wc"]], "metadata": {}, "n_missing": 0}
+        if ms["vcu"]:
+            res["measures"]["valid_count_unweighted"] = {"data": list(d["n"]), "metadata": meta, "n_missing": 0}
+        if ms["vcw"]:
+            res["measures"]["valid_count_weighted"] = {"data": [gen.num(F(x)) for x in d["wn"]], "metadata": meta, "n_missing": 0}
+        res["counts"] = list(d.get("rc", d["n"]))
+        res["n"] = sum(res["counts"])
         return resp
     # overlap
     weighted = case["wmode"] != "unit"
@@ -722,6 +876,11 @@ def _eval_part(case, plan, louts, mkpart, ctx, where):
     ctx.count("design:%sx%s" % (axes[0].role, axes[1].role))
     means = _kind(case) == "means"
     overlap = _kind(case) == "overlap"
+    if means:
+        ms = case.get("msel")
+        ctx.count("means:count-measures:%s" % ("default" if not ms else "+".join(k for k in ("vcu", "vcw", "count") if ms[k]) or "none"))
+    if case.get("split"):
+        ctx.count("overlap:split-sample:%s" % case["split"]["mode"])
     if case["type"] == "overlap":
         if L("path")["overlap_path"] != overlap:
             raise common.HarnessFault("python twin of usesOverlapPath disagrees with Lean: %r" % (case.get("ovm"),))
@@ -816,6 +975,7 @@ def _eval_part(case, plan, louts, mkpart, ctx, where):
                      ("pairwise_significance_t_stats", "pairwise_significance_p_vals")
     # expected values per display column c: [r][b]
     ET, EP, SPEC_OK = [], [], []
+    OV = None
     for c in range(len(co)):
         a = fc[c]
         it = common.call_impl(lambda: getattr(part, t_name)(c))
@@ -830,11 +990,16 @@ def _eval_part(case, plan, louts, mkpart, ctx, where):
             for ri, i in enumerate(fr):
                 for bi, b in enumerate(fc):
                     term = mT[a][i][b]
-                    zero_den = isinstance(term, dict) and "divsqrt" in term and term["divsqrt"][1] in ("0", "nan")
-                    df0 = i < len(vb) and a != b and vb[i][a][a] + vb[i][b][b] - vb[i][a][b] == 0
-                    if (zero_den or df0) and a != b and ri < len(it) and bi < len(it[ri]):
+                    # (round 6) NOT skipped: a NaN variance term.  It arises only from an undefined proportion - N_a = 0,
+                    # N_b = 0 or N_ab = 0 (then S = 0 too: 0/0), df = 0 implies N_a = 0 - and NaN propagates through every
+                    # float operation whatever the rounding: t and p must read NaN and the pair stays out of the index sets
+                    zero_den = isinstance(term, dict) and "divsqrt" in term and term["divsqrt"][1] == "0"
+                    if zero_den and a != b and ri < len(it) and bi < len(it[ri]):
                         mt[ri][bi], mp[ri][bi] = it[ri][bi], ip[ri][bi]
                         ctx.count("cells:overlap-degenerate-skipped")
+                    elif isinstance(term, dict) and "divsqrt" in term and term["divsqrt"][1] == "nan" and a != b:
+                        ctx.count("cells:overlap-undefined-pair" + (
+                            ":disjoint" if i < len(vb) and vb[i][a][b] == 0 and vb[i][a][a] != 0 and vb[i][b][b] != 0 else ""))
         if isinstance(it, list) and isinstance(ip, list) and not means and not overlap:
             # difference subtotals: "proportions" outside [0,1] can make the variance sum cancel to exactly 0 over Q
             # while the floats keep a 1e-17 residue (t = -inf vs -1.8e8): rounding is not modelled, skip such cells
@@ -849,6 +1014,26 @@ def _eval_part(case, plan, louts, mkpart, ctx, where):
                              "%s(%d) raises %s (signed column %d)" % (t_name, c, it["raises"], co[c])})
         else:
             _cmp(findings, "model", "seam.%s" % t_name, "selected display column %d (signed %d)" % (c, co[c]), it, mt)
+        if overlap and isinstance(it, list) and isinstance(ip, list):
+            # (round 6) the overlap-corrected statistic straight from the respondents (base rows, two different items)
+            if OV is None:
+                OV = overlap_oracle(axes, survey, case["wmode"] != "unit")
+            for ri, i in enumerate(fr):
+                for bi, b in enumerate(fc):
+                    if i >= nr or a >= nc or b >= nc or a == b:
+                        continue
+                    ot, op, exact = overlap_formula(*OV, i, a, b)
+                    if not exact:
+                        continue
+                    pair = "undefined-pair" if math.isnan(ot) and OV[1][i][a][b] == 0 else "pair"
+                    g_t = it[ri][bi] if ri < len(it) and bi < len(it[ri]) else None
+                    g_p = ip[ri][bi] if ri < len(ip) and bi < len(ip[ri]) else None
+                    _cmp(findings, "spec", "overlap.t_stats.%s" % pair,
+                         "t(a=%d,b=%d,row=%d) vs the respondent-level overlap formula (N_a=%s N_b=%s N_ab=%s)" % (
+                             a, b, i, OV[1][i][a][a], OV[1][i][b][b], OV[1][i][a][b]), g_t, ot)
+                    _cmp(findings, "spec", "overlap.p_vals.%s" % pair,
+                         "p(a=%d,b=%d,row=%d) vs the respondent-level overlap formula (N_a=%s N_b=%s N_ab=%s)" % (
+                             a, b, i, OV[1][i][a][a], OV[1][i][b][b], OV[1][i][a][b]), g_p, op)
         if overlap:
             # KNOWN: the overlap helper reports p = 0.0 for a column against itself (pinned by the
             # test-suite); compared under its own locus
@@ -877,8 +1062,8 @@ def _eval_part(case, plan, louts, mkpart, ctx, where):
                     if i >= nr or b >= nc:
                         continue
                     with np.errstate(all="ignore"):
-                        m1, v1, n1 = np.float64(fl(mm_[i][b])), np.float64(fl(sd_[i][b])) ** 2, np.float64(nn_[i][b])
-                        m0, v0, n0 = np.float64(fl(mm_[i][a])), np.float64(fl(sd_[i][a])) ** 2, np.float64(nn_[i][a])
+                        m1, v1, n1 = np.float64(fl(mm_[i][b])), np.float64(fl(sd_[i][b])) ** 2, np.float64(fl(nn_[i][b]))
+                        m0, v0, n0 = np.float64(fl(mm_[i][a])), np.float64(fl(sd_[i][a])) ** 2, np.float64(fl(nn_[i][a]))
                         wt = float((m1 - m0) / np.sqrt(v1 / n1 + v0 / n0))
                         df = (v1 / n1 + v0 / n0) ** 2 / ((v1 / n1) ** 2 / (n1 - 1) + (v0 / n0) ** 2 / (n0 - 1))
                         wp = _p_formula(wt, df)
@@ -983,10 +1168,20 @@ def _eval_part(case, plan, louts, mkpart, ctx, where):
         pwm = L("pw")
         for c in range(len(co)):
             a = fc[c]
+            et_ = [[_ev(pwm["t"][a][i][b]) for b in fc] for i in fr]
+            ep_ = [[_ev(pwm["p"][a][i][b]) for b in fc] for i in fr]
+            if case.get("msel") and isinstance(A["t"][c], list) and isinstance(A["p"][c], list):
+                # other count-measure sets: difference subtotals of a cube with a weighted valid-count measure read NaN in
+                # the library (a count of valid answers is not differenced); C13 states nothing about them - additive
+                # rows / columns only
+                for ri, i in enumerate(fr):
+                    for bi, b in enumerate(fc):
+                        if (row_is_diff(i) or col_is_diff(a) or col_is_diff(b)) and ri < len(A["t"][c]) and bi < len(A["t"][c][ri]):
+                            et_[ri][bi], ep_[ri][bi] = A["t"][c][ri][bi], A["p"][c][ri][bi]
             _cmp(findings, "model", "seam.means-cube.pairwise_significance_t_stats", "selected display column %d" % c,
-                 A["t"][c], [[_ev(pwm["t"][a][i][b]) for b in fc] for i in fr])
+                 A["t"][c], et_)
             _cmp(findings, "model", "seam.means-cube.pairwise_significance_p_vals", "selected display column %d" % c,
-                 A["p"][c], [[_ev(pwm["p"][a][i][b]) for b in fc] for i in fr])
+                 A["p"][c], ep_)
         ctx.count("means:both-tests-both-orders")
 
     # ---- index sets
